@@ -79,4 +79,4 @@ func init() {
 	}})
 }
 
-var readbackWeights = Weights{"write-new": 20, "modify": 8, "remove-file": 4, "add": 24, "rm": 5, "rm-all": 3, "copydir": 5, "file2dir": 3, "commit": 22, "reset": 22, "switch-c": 2}
+var readbackWeights = Weights{"dir-at-unstaged-file": 3, "file-at-unstaged-dir": 3, "write-new": 20, "modify": 8, "remove-file": 4, "add": 24, "rm": 5, "rm-all": 3, "copydir": 5, "file2dir": 3, "commit": 22, "reset": 22, "switch-c": 2}
